@@ -85,6 +85,9 @@ type World struct {
 
 	steps int
 	halt  bool
+	// burst: see stepUntil.
+	burst  bool
+	nBurst int
 	// clientCloses: connections the client itself closed (whatever was in
 	// flight on them is lost).
 	clientCloses int
@@ -444,6 +447,14 @@ func (w *World) stepUntil(deadline time.Time, wake <-chan struct{}) {
 	if len(w.evq) > 0 && !w.evq[0].at.After(now) {
 		ev := heap.Pop(&w.evq).(*event)
 		ev.fn()
+		// Burst runs: whatever is due within the same millisecond arrives
+		// back to back, without the client coming to rest in between
+		// (messages pipelined on one connection, or from several nodes).
+		for k := 0; w.burst && k < 8 && len(w.evq) > 0 && !w.evq[0].at.After(now.Add(time.Millisecond)); k++ {
+			ev := heap.Pop(&w.evq).(*event)
+			ev.fn()
+			w.nBurst++
+		}
 		return
 	}
 	next := deadline
